@@ -57,6 +57,9 @@ pub struct ReqInfo {
     pub name: String,
     /// what the client uploads (for writes)
     pub content: Arc<Vec<u8>>,
+    /// this endpoint abandoned a download a moment ago: that worker's DATA retransmissions still
+    /// arrive and are not replies to this request
+    pub tolerate_stale_data: bool,
 }
 
 #[derive(Clone, Debug, PartialEq)]
@@ -99,13 +102,14 @@ pub struct ReqMon {
     pending: Option<Pending>,
     /// relative paths (to root) that uploads may legitimately have created/changed so far
     allowed_targets: Vec<String>,
+    active_peer: BTreeMap<SocketAddr, usize>,
     pub probes: BTreeMap<&'static str, u64>,
 }
 
 impl ReqMon {
     #[allow(clippy::too_many_arguments)]
     pub fn new(prop: &'static str, mode: Mode, reqs: Vec<ReqInfo>, root: PathBuf, send_dir: PathBuf, recv_dir: PathBuf, listen: SocketAddr, read_only: bool, overwrite: bool) -> ReqMon {
-        ReqMon { prop, mode, attr: Attr::default(), reqs, root, send_dir, recv_dir, listen, read_only, overwrite, pending: None, allowed_targets: vec![], probes: BTreeMap::new() }
+        ReqMon { prop, mode, attr: Attr::default(), reqs, root, send_dir, recv_dir, listen, read_only, overwrite, pending: None, allowed_targets: vec![], active_peer: BTreeMap::new(), probes: BTreeMap::new() }
     }
 
     fn probe(&mut self, k: &'static str) {
@@ -284,7 +288,8 @@ impl Monitor for ReqMon {
         self.attr.feed(ev);
         match ev {
             Ev::RecvRet { task, res: RecvRes::Data { from, data, .. }, .. } if Some(*task) == self.attr.listener => {
-                if let Some(idx) = self.reqs.iter().position(|r| r.client == *from) {
+                let ap = self.active_peer.get(from).copied();
+                if let Some(idx) = self.reqs.iter().position(|r| r.client == *from && ap.map_or(true, |p| p == r.peer)) {
                     if matches!(rfc::decode(data), Some(Pkt::Rrq { .. }) | Some(Pkt::Wrq { .. })) {
                         let v = self.conclude(w);
                         self.begin(idx);
@@ -292,9 +297,12 @@ impl Monitor for ReqMon {
                     }
                 }
             }
+            Ev::Send { actor: Actor::Peer(p), src, .. } => {
+                self.active_peer.insert(*src, *p);
+            }
             Ev::Deliver { dst, src, data, to_peer: Some(_), .. } => {
                 if let Some(p) = &mut self.pending {
-                    if self.reqs[p.req].client == *dst {
+                    if self.reqs[p.req].client == *dst && !(self.reqs[p.req].tolerate_stale_data && rfc::is_data(data)) {
                         p.to_client.push((*src, data.clone()));
                     }
                 }
